@@ -11,9 +11,20 @@ _NOTE = ("Trusted: the Lean specification (lean/DecimalModel/Spec), the Go harne
 def _t(design, extra=""):
     return {"category": "exploration", "text": _EXPL + extra, "design_ref": design, "note": _NOTE,
             "technique": "Lean 4 executable specification + model, differential correspondence run (proofs in progress)"}
+_PNOTE = ("Trusted: Lean 4.33 kernel; axioms propext/Classical.choice/Quot.sound only (audited per theorem every run); the Lean specification "
+          "(lean/DecimalModel/Spec); the hand-written Lean model of the Go methods (lean/DecimalModel), whose agreement with /repo is what the "
+          "correspondence run of the same check samples on every run (Go harness + compiled Lean driver + line protocol); tools/gen for the regenerated parts.")
+def _p(design, text, technique="Lean 4 theorems (kernel-checked, axioms audited) about a model tied to the code by a per-run correspondence check"):
+    return {"category": "proof", "text": text, "design_ref": design, "note": _PNOTE, "technique": technique}
 TEXT = {
-    "C01": _t("8/C01"), "C02": _t("8/C02"), "C03": _t("8/C03"), "C04": _t("8/C04", "The special-value class product is enumerated exhaustively each run."),
+    "C04": _p("8/C04", "Theorems (Properties/C04.lean, 26): for every class of operands with at least one zero or infinity and every mode, the model of Add Sub Mul Quo FMA returns exactly the IEEE-754 result of Spec/IEEE.lean, panics with ErrNaN exactly for the invalid forms, leaves a valid receiver after a NaN, product/quotient signs are XOR, zero sums follow the sign rule. The finite+zero sub-cases (which round) and FMA with a finite product are stated with the rounding lemma as hypothesis / as _partial; they are closed by the C01/C03 theorems. The exhaustive class product x 6 modes is also executed on the real code every run and compared with model and specification."),
+    "C07": _p("8/C07", "Theorems (Properties/C07.lean) over definitions REGENERATED from the Go source on every run: div10W_g (Granlund-Montgomery) mul10WW_g div10WW_g add10WWW_g sub10WWW_g equal their mathematical definition for all inputs within the precondition; all 18 rows of pow10DivTab64 divide every 64-bit word exactly; decDigits64, nlz10, trailingZeroDigits, pow10tab, pow5tab, constants. Assembly: not yet at theorem level (translator in progress) - decided by the run: each of the 12 kernels, assembly vs portable Go vs L0 Lean model vs definition, in-place and shifted-overlap destinations, plus identical public-API transcripts under the default, decimal_pure_go and math_big_pure_go builds.",
+              "Lean 4 theorems over code regenerated from the Go source by tools/gen + kernel-level correspondence (asm vs Go vs Lean model vs arithmetic)"),
+    "C09": _p("8/C09", "Theorems (Properties/C09.lean, 46): for every operation of the model and every aliasing flag combination the receiver's mode is unchanged and its precision is prec if non-zero else the documented value (max of operand precisions; x.prec for Set/Neg/Abs; 34 or digit count for integer setters); Copy/SetMantExp/MantExp copy exactly prec and mode of the source. Operands-unmodified is the value semantics of the model; on the real code it is checked every run by before/after snapshots of every variable including backing arrays up to capacity."),
+    "C10": _p("8/C10", "Theorems (Properties/C10.lean, 39): for Add Sub Mul Quo FMA Set Neg Abs Copy SetMantExp MantExp and every combination of 'operand is the receiver' flags, the model's result equals the result with the operand passed as a separate variable holding the same value (FMA up to unobservable stale storage); the result depends on the receiver only through its precision and mode (observational equality). Buffer-level aliasing (dec.mul/sqr/div/shl/shr/add/sub with nil, stale and operand-aliasing receivers, poisoned pool buffers) is decided by the kernel-level correspondence run."),
+    "C16": _p("8/C16", "Theorems (Properties/C16.lean, 19): cmp_spec - for canonical operands Cmp equals the order of the exact rational values with -Inf < finite < +Inf and -0 = +0 (Spec.cmpSV), independent of precision, mode, accuracy and mantissa length; reflexive, antisymmetric, transitive; consistent with Sign/zero/infinity classification. Nothing partial."),
+    "C01": _t("8/C01"), "C02": _t("8/C02"), "C03": _t("8/C03"), 
     "C05": _t("8/C05"), "C14": _t("8/C14"), "C19": _t("8/C19"), "C20": _t("8/C20"),
     "C17": _t("8/C17"), "C06": _t("8/C06"), "C07": _t("8/C07"), "C18": _t("8/C18"),
-    "C08": _t("8/C08"), "C09": _t("8/C09"), "C10": _t("8/C10"), "C16": _t("8/C16"),
+    "C08": _t("8/C08"),
 }
